@@ -64,6 +64,11 @@ F = {
     # export entries queued while the current record is empty (nothing follows that would write them out)
     'f_ok_exportonly': '\tcpu 6502\nfoo\tequ 5\n\texport_sym foo\n',
     'f_ok_export_emptyrec': '\tcpu 6502\nfoo\tequ 5\n\tnop\n\torg $2000\n\texport_sym foo\n',
+    # ASSUMEd register contents of four more targets: they are the program's, not the next file's
+    'f_ok_78k4': '\tcpu 784026\n\tassume rss:1\n\tnop\n', 'g_78k4use': '\tcpu 784026\n\tmov a,#1\n\tmov x,#2\n\tmov c,b\n',
+    'f_ok_sx20': '\tcpu sx20\n\tassume fsr:$30\n\tnop\n', 'g_sx20use': '\tcpu sx20\n\tmov w,$13\n\tmov w,$33\n',
+    'f_ok_olms': '\tcpu msm5054\n\tassume p:1\n\tnop\n', 'g_olmsuse': '\tcpu msm5054\n\tadd acc,03h\n',
+    'f_ok_mn': "\tcpu mn1613alt\n\tassume csbr:1\n\tnop\n", 'g_mnuse': "\tcpu mn1613alt\n\tbd X'1000'\n",
     'f_fatal': None,   # placeholder: fatal ends the run, nothing follows
     'f_defsym': '\tcpu 6502\nsym\tequ 5\nm1\tmacro\n\tnop\n\tendm\n\tfoo\n',
     'f_sh_literal': '\tcpu sh7600\n\torg 0\n\tmov.l #$cafebabe,r1\n\trts\n\tnop\n',       # fails: literal pool never flushed by LTORG
@@ -135,6 +140,9 @@ def subspaces(tier):
             for pred in ('g_nocpu', 'f_ok_defsym', 'f_macro', 'f_radix'):
                 yield {'k': 'seq', 'files': [pred, 'g_nocpu'], 'flags': fl}
                 yield {'k': 'seq', 'files': [pred, 'g_nocpu', 'g_nocpu'], 'flags': fl}
+        for pred, succ in (('f_ok_78k4', 'g_78k4use'), ('f_ok_sx20', 'g_sx20use'), ('f_ok_olms', 'g_olmsuse'), ('f_ok_mn', 'g_mnuse')):
+            yield {'k': 'seq', 'files': [pred, succ], 'flags': []}
+            yield {'k': 'seq', 'files': [pred, 'f_ok_defsym', succ], 'flags': []}
         for pred in ('f_ok_tmplab', 'f_tmplab', 'g_tmpuse'):
             yield {'k': 'seq', 'files': [pred, 'g_tmpuse'], 'flags': []}
             yield {'k': 'seq', 'files': [pred, 'f_ok_defsym', 'g_tmpuse'], 'flags': []}
